@@ -1071,6 +1071,14 @@ func (e *Engine) evalCall(env *Env, c *ast.CallExpr) TV {
 			sfail("baseof of non-slice")
 		}
 		return TV{V: &Sc{sv.Base}, T: mathIntT}
+	case "offsetof":
+		// offsetof(s): position of s[0] in its backing array
+		x := e.eval(env, c.Args[0])
+		sv, ok := x.V.(*SliceSV)
+		if !ok {
+			sfail("offsetof of non-slice")
+		}
+		return TV{V: &Sc{sv.Off}, T: mathIntT}
 	case "mathint":
 		return e.toMath(e.eval(env, c.Args[0]))
 	case "unixnano":
